@@ -149,9 +149,14 @@ def run(tier, seed):
            '<form id="d"><input type="radio" name="a"><input type="submit"><span><iframe></iframe></span></form>',
            '<form id="d"><input type="radio" name="a"><div><div><iframe><html><body><input type="radio" name="a" checked></body></html></iframe></div></div></form>',
            '<ul id="d"><li>1</li><li>2<!-- c --></li></ul>', '<p id="d" lang="en" dir="auto">text<b></b></p>', '<div id="d"><textarea dir="auto"></textarea><input type="week" min="x"></div>',
-           '<div id="d"></div>', '<div id="d">only text</div>', '<section id="d"><iframe></iframe>tail</section>']
+           '<div id="d"></div>', '<div id="d">only text</div>', '<section id="d"><iframe></iframe>tail</section>',
+           # an element with no parent at all / directly below an iframe, for every walk that climbs to a form, a root or a language
+           '<input id="d" type="radio" name="a">', '<input id="d" type="submit">', '<p id="d" dir="auto"></p>', '<textarea id="d" placeholder="x"></textarea>',
+           '<div><iframe id="d"><input type="radio" name="a"><input type="submit"><p lang="en">x</p></iframe></div>',
+           '<iframe id="d"><input type="radio" name="a" checked><option selected>o</option></iframe>']
     DSEL = ['*', ':root', 'p', ':-soup-contains(x)', ':-soup-contains-own(in)', ':indeterminate', ':default', ':empty', ':has(iframe)', 'iframe ~ *',
-            ':nth-child(1)', ':nth-last-child(1)', ':only-of-type', ':lang(en)', ':dir(ltr)', ':scope', ':not(p)', ':in-range', ':checked', 'div p, form input']
+            ':nth-child(1)', ':nth-last-child(1)', ':only-of-type', ':lang(en)', ':dir(ltr)', ':scope', ':not(p)', ':in-range', ':checked', 'div p, form input',
+            ':enabled', ':disabled', ':required', ':placeholder-shown', ':read-write', ':link', ':defined', 'input ~ *', ':has(> input)']
     for mk in DET:
         for parser in ('html.parser', 'lxml', 'html5lib'):
             with warnings.catch_warnings():
